@@ -106,6 +106,43 @@ func (c *Ctx) tagSwitches(pkgs ...string) []*tagSwitch {
 	return out
 }
 
+// recvTypeName: name of the receiver's named type of a "pkg.(*T).m" function name.
+func recvTypeName(fn string) string {
+	i := strings.Index(fn, "(")
+	j := strings.Index(fn, ")")
+	if i < 0 || j < i {
+		return ""
+	}
+	return strings.TrimPrefix(fn[i+1:j], "*")
+}
+
+// dispatchOf finds a full tag dispatch by structure, not by function name:
+// the receiver's type name and whether its clauses talk about reflect kinds.
+func (c *Ctx) dispatchOf(recv string, wantKinds bool) *tagSwitch {
+	var best *tagSwitch
+	for _, ts := range c.tagSwitches("nbt") {
+		if len(ts.cases) < 9 || recvTypeName(ts.fn) != recv {
+			continue
+		}
+		nk := len(kindsIn(ts.pkg.TypesInfo, ts.sw))
+		if wantKinds != (nk >= 8) {
+			continue
+		}
+		if best == nil || len(ts.cases) > len(best.cases) {
+			best = ts
+		}
+	}
+	return best
+}
+
+// encoderDispatch: the encoder's full tag dispatch (whether or not its clauses mention kinds).
+func (c *Ctx) encoderDispatch() *tagSwitch {
+	if ws := c.dispatchOf("Encoder", false); ws != nil {
+		return ws
+	}
+	return c.dispatchOf("Encoder", true)
+}
+
 // clauseFails: the clause ends by returning a freshly built / package-level
 // error, or assigns one to the named error result.
 func clauseFails(info *types.Info, cc *ast.CaseClause) bool {
@@ -231,13 +268,47 @@ func kindsIn(info *types.Info, n ast.Node) map[string]bool {
 
 // encoderKindTable: kind -> tag from the Kind switch of getTagTypeByType.
 func (c *Ctx) encoderKindTable() (map[string]int64, map[int64]string, token.Pos, string) {
-	fn := c.Fn("nbt.getTagTypeByType")
-	if fn == nil {
-		return nil, nil, token.NoPos, "nbt.getTagTypeByType not found"
+	// the kind->tag table: the function of package nbt with a switch whose clauses list
+	// reflect.Kind constants and return tag constants (found by structure)
+	pk := c.P.Pkg("nbt")
+	if pk == nil {
+		return nil, nil, token.NoPos, "package nbt not found"
 	}
-	fd, pk := c.astFuncDecl(fn)
-	if fd == nil || pk == nil {
-		return nil, nil, token.NoPos, "no syntax for getTagTypeByType"
+	var fd *ast.FuncDecl
+	bestN := 0
+	for _, f := range pk.Syntax {
+		for _, d := range f.Decls {
+			cand, ok := d.(*ast.FuncDecl)
+			if !ok || cand.Body == nil {
+				continue
+			}
+			n := 0
+			ast.Inspect(cand.Body, func(x ast.Node) bool {
+				cc, ok := x.(*ast.CaseClause)
+				if !ok || cc.List == nil || len(cc.Body) != 1 {
+					return true
+				}
+				ret, ok := cc.Body[0].(*ast.ReturnStmt)
+				if !ok || len(ret.Results) != 1 {
+					return true
+				}
+				if _, _, isTag := tagConst(pk.TypesInfo, ret.Results[0]); !isTag {
+					return true
+				}
+				for _, e := range cc.List {
+					if _, isKind := reflectKindName(pk.TypesInfo, e); isKind {
+						n++
+					}
+				}
+				return true
+			})
+			if n > bestN {
+				bestN, fd = n, cand
+			}
+		}
+	}
+	if fd == nil {
+		return nil, nil, token.NoPos, "no kind->tag table function found in package nbt"
 	}
 	table := map[string]int64{}
 	names := map[int64]string{}
@@ -305,12 +376,7 @@ func (c *Ctx) KindTables() []core.Ob {
 	obs = append(obs, d)
 
 	// decoder side: kinds mentioned in each tag case of (*Decoder).unmarshal
-	var dec *tagSwitch
-	for _, ts := range c.tagSwitches("nbt") {
-		if ts.fn == "nbt.(*Decoder).unmarshal" && len(ts.cases) >= 9 {
-			dec = ts
-		}
-	}
+	dec := c.dispatchOf("Decoder", true)
 	if dec == nil {
 		return append(obs, core.Ob{Rule: "T-KIND", Key: "decoder-dispatch", Status: core.Violated, Armed: true, Want: "the decoder's tag dispatch is found", Got: "not found"})
 	}
@@ -393,12 +459,7 @@ func (c *Ctx) ReflKind() []core.Ob {
 	if why != "" {
 		return []core.Ob{{Rule: "R-REFLKIND", Key: "encoder-table", Status: core.Violated, Armed: true, Got: why}}
 	}
-	var ws *tagSwitch
-	for _, ts := range c.tagSwitches("nbt") {
-		if ts.fn == "nbt.(*Encoder).writeValue" && len(ts.cases) >= 9 {
-			ws = ts
-		}
-	}
+	ws := c.encoderDispatch()
 	if ws == nil {
 		return []core.Ob{{Rule: "R-REFLKIND", Key: "writeValue-dispatch", Status: core.Violated, Armed: true, Want: "the encoder's tag dispatch is found", Got: "not found"}}
 	}
